@@ -128,3 +128,93 @@ def with_alarm(seconds, fn):
     finally:
         signal.setitimer(signal.ITIMER_REAL, 0)
         signal.signal(signal.SIGALRM, old)
+
+
+# ------------------------------------------------------------------ C01: pure round trip (oracle = the value itself)
+class _Ordered:
+    """an object declaring its field order (accepted wherever a struct is expected)"""
+    def __init__(self, vals):
+        self.dbusOrder = ['f%d' % i for i in range(len(vals))]
+        for n, v in zip(self.dbusOrder, vals):
+            setattr(self, n, v)
+
+
+def input_forms(ct, v, rnd):
+    """the same conforming value in another accepted Python form: structs as tuples / lists / dbusOrder objects,
+    byte arrays as bytearray, typed wrappers for basic types"""
+    from txdbus import marshal
+    c = ct[0]
+    if c == 'a':
+        et = ct[1:]
+        if et == 'y' and rnd.random() < 0.5:
+            return bytearray(v)
+        if et[0] == '{':
+            return {k: input_forms(et[2:-1], x, rnd) for k, x in v.items()}
+        return [input_forms(et, x, rnd) for x in v]
+    if c == '(':
+        parts = [input_forms(t, x, rnd) for t, x in zip(W.split(ct[1:-1]), v)]
+        r = rnd.random()
+        return tuple(parts) if r < 0.4 else _Ordered(parts) if r < 0.6 else parts
+    wrap = {'y': 'Byte', 'n': 'Int16', 'q': 'UInt16', 'i': 'Int32', 'u': 'UInt32', 'x': 'Int64', 't': 'UInt64', 'o': 'ObjectPath', 'g': 'Signature'}
+    if c in wrap and rnd.random() < 0.3 and hasattr(marshal, wrap[c]):
+        return getattr(marshal, wrap[c])(v)
+    if c == 'b' and rnd.random() < 0.3:
+        return marshal.Boolean(v)
+    return v
+
+
+def plain_roundtrip_case(sig, vals, off, le, rnd):
+    """encode, decode what was produced under the same signature / byte order / offset: equal values, equal counts"""
+    from txdbus import marshal
+    cts = W.split(sig)
+    tx_vals = [input_forms(ct, to_tx(ct, v), rnd) if 'v' not in ct else to_tx(ct, v) for ct, v in zip(cts, vals)]
+    try:
+        n, chunks = marshal.marshal(sig, tx_vals, off, le)
+    except Exception as e:
+        return 'marshal(%r, %r, %d, le=%s) raised %s: %s' % (sig, vals, off, le, type(e).__name__, e)
+    raw = b''.join(chunks)
+    if n != len(raw):
+        return 'marshal(%r, %r, %d) reports %d bytes and produces %d' % (sig, vals, off, n, len(raw))
+    try:
+        m, out = marshal.unmarshal(sig, b'\x55' * off + raw, off, le)
+    except Exception as e:
+        return 'unmarshal(%r, own bytes %s at %d, le=%s) raised %s: %s' % (sig, raw.hex(), off, le, type(e).__name__, e)
+    want = [W.canon(ct, v) for ct, v in zip(cts, vals)]
+    if not W.same(out, want):
+        return 'round trip of %r under %r at offset %d (le=%s) gives %r' % (vals, sig, off, le, out)
+    if m != n:
+        return 'round trip of %r under %r at offset %d (le=%s): encoder produced %d bytes, decoder consumed %d' % (vals, sig, off, le, n, m)
+    return None
+
+
+def bounded_plain_roundtrip(tier, seed):
+    rnd = random.Random(seed * 7919 + 1)
+    pool = signature_pool(tier)
+    rnd.shuffle(pool)
+    take = pool[:1200 if tier == 'thorough' else 220]
+    n = 0
+    special = [('a{sv}i', [{}, 42]), ('axs', [[], 'after']), ('a(ii)u', [[], 7]), ('ady', [[], 9]), ('(a{ss}s)', [[{}, 'tail']]),
+               ('aax', [[[], [1]]]), ('v', [W.Variant('ax', [])]), ('yv', [3, W.Variant('(yx)', [1, 2])]), ('a{sv}', [{'a': W.Variant('d', float('-inf'))}]),
+               ('(nqiuxt)', [[-2**15, 2**16 - 1, -2**31, 2**32 - 1, -2**63, 2**64 - 1]]), ('s', ['\U0001F600 é']), ('ay', [[]]), ('a(ay)', [[[[1, 2]], [[]]]])]
+    for sig, vals in special:
+        for off in range(8):
+            for le in (True, False):
+                n += 1
+                f = plain_roundtrip_case(sig, vals, off, le, rnd)
+                if f:
+                    return n, f, {'signature': sig, 'values': repr(vals), 'offset': off, 'little_endian': le}
+    for ct in take:
+        for _ in range(2):
+            vals, sig = [W.gen_value(ct, rnd)], ct
+            while rnd.random() < 0.35:
+                other = rnd.choice(take)
+                if not W.valid(sig + other):
+                    break
+                sig += other
+                vals.append(W.gen_value(other, rnd))
+            off, le = rnd.randrange(8), rnd.random() < 0.5
+            n += 1
+            f = plain_roundtrip_case(sig, vals, off, le, rnd)
+            if f:
+                return n, f, {'signature': sig, 'values': repr(vals), 'offset': off, 'little_endian': le}
+    return n, None, None
